@@ -426,8 +426,8 @@ impl Property for C01 {
         "C01"
     }
     fn rule(&self) -> String {
-        "(secret, leaf index, limit, message id, external nullifier, signal, tree history, entry point): field values boundary-weighted, index from {0, 1, 2^19-1, 2^19, 2^20-2, 2^20-1, right half, uniform}, limit from {1, 2, 100, 65535, 65536, uniform}, message id from {0, limit-1, uniform}, signals of length 0..12000 incl. Keccak block edges; 0..3 tree operations (set/delete/range write/removal-only batch / registration of 2100..5000 other members in one request on the sibling, the other half, neighbours, first/last, uniform positions, and reads of the prover's own membership path) before and after the rate commitment is placed (set_leaf, set_leaves_from or set_next_leaf); four entry points (tree state, caller-supplied witness, raw prove with independently assembled witness and values, externally computed witness vector from the reference generator); 4 in 9 cases prove a second, related request on the same instance right afterwards (another signal / message id / external nullifier / the same request again). \
-         Oracle: proving succeeds; verify, verify_rln_proof, verify_with_roots with [root], [r1,root,r2] and the empty set all accept; published values equal the reference formulas on the ideal tree. non-trivial = index >= 2^19, mid in {0, limit-1}, limit in {1, 2^16}, a boundary field value, or signal length 0 or >= 136; distinct by case content".into()
+        "(secret, leaf index, limit, message id, external nullifier, signal, tree history, entry point): field values boundary-weighted, index from {0, 1, 2^19-1, 2^19, 2^20-2, 2^20-1, right half, uniform}, limit from {1, 2, 100, 65535, 65536, uniform}, message id from {0, limit-1, uniform}, signals of length 0..12000 incl. Keccak block edges; 0..3 tree operations (set/delete/range write/removal-only batch / registration of 2100..5000 other members in one request on the sibling, the other half, neighbours, first/last, uniform positions, and reads of the prover's own membership path) before and after the rate commitment is placed (set_leaf, set_leaves_from or set_next_leaf); four entry points (tree state, caller-supplied witness, raw prove with independently assembled witness and values, externally computed witness vector from the reference generator); 4 in 9 cases prove a second, related request on the same instance right afterwards (another signal / message id / external nullifier / the same request again). A quarter of the cases have every verification call made by a second long-lived thread of the caller (taking turns with the thread that proves and changes the tree). \
+         non-trivial = index >= 2^19, mid in {0, limit-1}, limit in {1, 2^16}, a boundary field value, or signal length 0 or >= 136; distinct by case content".into()
     }
     fn assumptions(&self) -> Vec<String> {
         vec!["reference Poseidon/Keccak (self-tested), the ideal tree model, the reference witness generator (entry point 4)".into()]
@@ -449,6 +449,12 @@ impl Property for C01 {
         // per call, or everything at once (chosen from the case content)
         crate::gens::set_io_style((case_hash(c) % 4) as u8);
         o.label(format!("io-style/{}", crate::gens::io_style()));
+        // a quarter of the cases: verification is done by a second long-lived thread of the caller
+        let second = (case_hash(c) / 4) % 4 == 1;
+        crate::pipeline::verify_on_second_thread(second);
+        if second {
+            o.label("verified-by-a-second-thread");
+        }
         o.label(format!("entry/{:?}", c.entry));
         o.label(format!("place/{:?}", c.place));
         if !c.pre.is_empty() || !c.post.is_empty() {
